@@ -1,7 +1,407 @@
-(* C03 - web bundles; placeholder until the proofs land. *)
-From WP Require Import Base.Prelude Model.Bundle.
+(* C03 - Web bundle write -> read round trip preserves every exchange.
+
+   "Reading back any bundle the writer produced yields the same format version,
+   primary URL, manifest URL and signatures section and, for every URL, the same
+   status, header fields (names case-folded, repeated values comma-joined) and
+   body bytes - nothing dropped, duplicated or attributed to another URL; for b1
+   variant sets the representations come back in row-major order of the Variants
+   axes, and incomplete or overlapping variant coverage is refused at write time.
+   Re-serializing what was read and reading it again reaches a byte-identical
+   fixpoint."  (the fixpoint is claimed for bundles without multi-key
+   Variant-Key entries)
+
+   Statements only; proofs live in Proofs/Variants.v, Proofs/BundleRoundtripRows.v and
+   Proofs/BundleRoundtrip*.v.  Model = Model/Bundle.v (b_write = Bundle.WriteTo,
+   b_read = bundle.Read, x509.ParseCertificate a parameter x509_ok).
+
+   writable b  (boolean): status 100..999; header names non-empty RFC 7230 tokens,
+     pairwise distinct after lower-casing; header values ASCII; exchange URLs
+     decided by the url.Parse model with no fragment / userinfo and valid UTF-8;
+     primary URL: b1 present and decided, b2 optional and absolute; manifest only
+     in b1, absolute; authorities accepted by x509_ok, Authority a uint64; not
+     tainted.
+   norm b : what the reader returns - same version / primary / manifest /
+     signatures; exchanges in index order (ascending encoded URL), per URL either
+     the single exchange or (b1) one exchange per possible Variant-Key in
+     row-major order; header names canonicalised (CanonicalMIMEHeaderKey of the
+     lower-cased name), one comma-joined value each, ordered by encoded
+     lower-case name.
+   lenN bs < 2^63: a Go slice / int. *)
+From Coq Require Import Lia Permutation Sorted.
+From WP Require Import Base.Prelude Base.Decimal Model.Cbor Model.Http Model.UrlRef Model.Variants
+  Model.CertChain Model.Bundle.
+From WP Require Import Spec.Cbor Spec.Bundle.
+From WP Require Import Proofs.BaseLemmas Proofs.Variants Proofs.BundleWriteBasics Proofs.BundleWriteForm
+  Proofs.BundleWriteWF Proofs.BundleWriteCases Proofs.BundleRoundtripRows Proofs.BundleRoundtripResp
+  Proofs.BundleRoundtripMeta Proofs.BundleRoundtripRead Proofs.BundleRoundtripSig
+  Proofs.BundleRoundtrip Proofs.BundleRoundtripNorm Proofs.BundleRoundtripIdem.
 Open Scope N_scope.
 
-Theorem c03_smoke : parse_magic (header_magic_bytes BV2 ++ [1]) = Ok (BV2, [1]).
-Proof. reflexivity. Qed.
-Print Assumptions c03_smoke.
+(* ======================= Variants: row-major numbering ============================ *)
+(* axes with pairwise distinct values: index -> key -> index *)
+Theorem variants_row_major : forall v n i,
+  Forall axis_nodup v -> num_possible_keys v = Ok n -> i < n ->
+  exists k, possible_key_at v i = Some k /\ index_in_possible_keys v k = Some i.
+Proof. exact Variants.variants_row_major. Qed.
+Print Assumptions variants_row_major.
+
+(* key -> index -> key, no distinctness needed *)
+Theorem variants_row_major_inv : forall v n i k,
+  num_possible_keys v = Ok n -> index_in_possible_keys v k = Some i ->
+  i < n /\ possible_key_at v i = Some k.
+Proof. exact Variants.variants_row_major_inv. Qed.
+Print Assumptions variants_row_major_inv.
+
+(* the precise statement when an axis lists a value twice: looking up the i-th
+   key finds the index i' <= i of the same key built from first occurrences *)
+Theorem key_to_index : forall v n i,
+  num_possible_keys v = Ok n -> i < n ->
+  exists k i',
+    possible_key_at v i = Some k /\ index_in_possible_keys v k = Some i' /\ i' <= i /\
+    possible_key_at v i' = Some k /\ (Forall axis_nodup v -> i' = i).
+Proof. exact Variants.key_to_index. Qed.
+Print Assumptions key_to_index.
+
+(* "row-major": appending an axis multiplies the index by its size and adds the
+   position on that axis - the last axis varies fastest *)
+Theorem row_major_step : forall v vals k x i j,
+  List.length k = List.length v ->
+  index_in_possible_keys v k = Some i -> index_of x (tl vals) 0 = Some j ->
+  index_in_possible_keys (v ++ [vals]) (k ++ [x]) = Some (i * lenN (tl vals) + j).
+Proof. exact Variants.row_major_step. Qed.
+Print Assumptions row_major_step.
+
+Theorem num_possible_keys_spec : forall v n,
+  num_possible_keys v = Ok n -> n = prodN v /\ Forall axis_ok v /\ 1 <= n <= max_variants.
+Proof. exact Variants.npk_spec. Qed.
+Print Assumptions num_possible_keys_spec.
+
+(* entriesInPossibleKeyOrder: l has exactly n elements, l[i] is the entry one of
+   whose Variant-Keys has index i, every index is covered exactly once, all
+   entries carry the Variants value of the first *)
+Theorem entries_order_spec : forall (A : Type) (es : list (bytes * bytes * A)) (l : list A),
+  entries_in_possible_key_order es = Ok l ->
+  exists v0 vk0 x0 t v n,
+    es = (v0, vk0, x0) :: t /\ v0 <> [] /\
+    Forall (fun e => fst (fst e) = v0) es /\
+    parse_list_of_string_lists v0 = Ok v /\ num_possible_keys v = Ok n /\
+    Covers v n es l.
+Proof. exact @Variants.entries_order_spec. Qed.
+Print Assumptions entries_order_spec.
+
+Theorem entries_order_complete : forall (A : Type) v0 vk0 (x0 : A) t v n pl,
+  let es := (v0, vk0, x0) :: t in
+  v0 <> [] -> Forall (fun e => fst (fst e) = v0) es ->
+  parse_list_of_string_lists v0 = Ok v -> num_possible_keys v = Ok n ->
+  placements v es = Some pl -> NoDup (map fst pl) ->
+  (forall i, In i (map fst pl) <-> i < n) ->
+  exists l, entries_in_possible_key_order es = Ok l.
+Proof. exact @Variants.entries_order_complete. Qed.
+Print Assumptions entries_order_complete.
+
+Theorem entries_overlap_refused : forall (A : Type) (es : list (bytes * bytes * A)) v v0 pl,
+  hd_error (map (fun e => fst (fst e)) es) = Some v0 ->
+  parse_list_of_string_lists v0 = Ok v ->
+  placements v es = Some pl -> ~ NoDup (map fst pl) ->
+  entries_in_possible_key_order es = Err.
+Proof. exact @Variants.overlap_refused. Qed.
+Print Assumptions entries_overlap_refused.
+
+Theorem entries_incomplete_refused : forall (A : Type) (es : list (bytes * bytes * A)) v v0 n i pl,
+  hd_error (map (fun e => fst (fst e)) es) = Some v0 ->
+  parse_list_of_string_lists v0 = Ok v -> num_possible_keys v = Ok n ->
+  placements v es = Some pl -> i < n -> ~ In i (map fst pl) ->
+  entries_in_possible_key_order es = Err.
+Proof. exact @Variants.incomplete_refused. Qed.
+Print Assumptions entries_incomplete_refused.
+
+Theorem entries_uncovered_refused : forall (A : Type) (es : list (bytes * bytes * A)) v v0,
+  hd_error (map (fun e => fst (fst e)) es) = Some v0 ->
+  parse_list_of_string_lists v0 = Ok v ->
+  (placements v es = None \/ ~ Forall (fun e => fst (fst e) = v0) es) ->
+  entries_in_possible_key_order es = Err.
+Proof. exact @Variants.uncovered_refused. Qed.
+Print Assumptions entries_uncovered_refused.
+
+(* with one Variant-Key per entry the result is a rearrangement of the entries *)
+Theorem entries_order_perm : forall (A : Type) (es : list (bytes * bytes * A)) (l : list A),
+  entries_in_possible_key_order es = Ok l -> single_keyed es -> Permutation l (map snd es).
+Proof. exact @Variants.entries_order_perm. Qed.
+Print Assumptions entries_order_perm.
+
+(* every entry appears in the result (it carries at least one Variant-Key) *)
+Theorem entries_order_all_placed : forall (A : Type) (es : list (bytes * bytes * A)) (l : list A),
+  entries_in_possible_key_order es = Ok l ->
+  forall vv vk x, In (vv, vk, x) es -> In x l.
+Proof. exact @Variants.entries_order_all_placed. Qed.
+Print Assumptions entries_order_all_placed.
+
+(* ======================= one exchange ================================================ *)
+Theorem load_response_item : forall x,
+  xwritable x = true -> lenN (item_of x) < two63 ->
+  load_response (item_of x) = Ok (bx_status x, norm_hdr (bx_status x) (bx_hdr x), bx_body x).
+Proof. exact BundleRoundtripResp.load_response_item. Qed.
+Print Assumptions load_response_item.
+
+(* ======================= the round trip ============================================== *)
+Theorem bundle_roundtrip : forall x509_ok b bs,
+  writable x509_ok b = true -> b_write b = Ok bs -> lenN bs < two63 ->
+  b_read x509_ok bs = Ok (norm b).
+Proof. exact BundleRoundtripNorm.bundle_roundtrip. Qed.
+Print Assumptions bundle_roundtrip.
+
+(* every URL once: the exchanges come back sorted by encoded URL *)
+Theorem bundle_roundtrip_single : forall x509_ok b bs,
+  writable x509_ok b = true -> single_urls b -> b_write b = Ok bs -> lenN bs < two63 ->
+  exists b', b_read x509_ok bs = Ok b' /\
+    b_ver b' = b_ver b /\ b_primary b' = b_primary b /\ b_manifest b' = b_manifest b /\
+    b_sigs b' = b_sigs b /\ b_taint b' = false /\
+    b_exchanges b' = map xnorm (isort x_ltb (b_exchanges b)).
+Proof. exact BundleRoundtripNorm.bundle_roundtrip_single. Qed.
+Print Assumptions bundle_roundtrip_single.
+
+Theorem norm_single : forall b, single_urls b -> urls_utf8 b ->
+  b_exchanges (norm b) = map xnorm (isort x_ltb (b_exchanges b)).
+Proof. exact BundleRoundtripNorm.norm_single. Qed.
+Print Assumptions norm_single.
+
+(* nothing dropped, duplicated or attributed to another URL *)
+Theorem nothing_lost_single : forall b, single_urls b -> urls_utf8 b ->
+  Permutation (map xnorm (b_exchanges b)) (b_exchanges (norm b)).
+Proof. exact BundleRoundtripNorm.nothing_lost_single. Qed.
+Print Assumptions nothing_lost_single.
+
+(* the same with b1 variant sets, when every exchange carries exactly one Variant-Key
+   (a multi-key entry is deliberately repeated by the reader) *)
+Theorem nothing_lost : forall b bs,
+  b_write b = Ok bs -> single_keys b ->
+  Permutation (map xnorm (b_exchanges b)) (b_exchanges (norm b)).
+Proof. exact BundleRoundtripNorm.nothing_lost. Qed.
+Print Assumptions nothing_lost.
+
+(* the rows of norm b are the g_row of each URL group: for a b1 URL with several
+   exchanges entriesInPossibleKeyOrder of the group (row-major by entries_order_spec) *)
+Theorem norm_rows_spec : forall b bs,
+  b_write b = Ok bs ->
+  exists rows,
+    g_rows hv_variants hv_vkey (b_ver b) (g_groups bx_url (b_exchanges b)) = Ok rows /\
+    b_exchanges (norm b) = flat_map (fun r => map xnorm (snd r)) (isort row_ltb rows) /\
+    Forall2 (fun g r => g_row hv_variants hv_vkey (b_ver b) g = Ok r)
+            (g_groups bx_url (b_exchanges b)) rows.
+Proof. exact BundleRoundtripNorm.norm_rows_spec. Qed.
+Print Assumptions norm_rows_spec.
+
+(* ======================= refusal at write time ======================================= *)
+Theorem variants_refused : forall b u es,
+  b_ver b = BV1 -> headers_ok b = true -> urls_utf8 b ->
+  In (u, es) (groups_of (ients_of b)) -> (2 <= List.length es)%nat ->
+  entries_in_possible_key_order (ventries es) = Err ->
+  b_write b = Err.
+Proof. exact (BundleRoundtripNorm.variants_refused (fun _ => true)). Qed.
+Print Assumptions variants_refused.
+
+Theorem incomplete_or_overlapping_refused : forall b u es v0 v n pl,
+  b_ver b = BV1 -> headers_ok b = true -> urls_utf8 b ->
+  In (u, es) (groups_of (ients_of b)) -> (2 <= List.length es)%nat ->
+  hd_error (map ie_variants es) = Some v0 ->
+  parse_list_of_string_lists v0 = Ok v -> num_possible_keys v = Ok n ->
+  placements v (ventries es) = Some pl ->
+  (~ NoDup (map fst pl) \/ exists i, i < n /\ ~ In i (map fst pl)) ->
+  b_write b = Err.
+Proof. exact (BundleRoundtripNorm.incomplete_or_overlapping_refused (fun _ => true)). Qed.
+Print Assumptions incomplete_or_overlapping_refused.
+
+(* ======================= idempotence and the fixpoint ================================= *)
+Theorem xnorm_idempotent : forall x, xwritable x = true -> xnorm (xnorm x) = xnorm x.
+Proof. exact BundleRoundtripIdem.xnorm_idem. Qed.
+Print Assumptions xnorm_idempotent.
+
+Theorem xnorm_writable : forall x, xwritable x = true -> xwritable (xnorm x) = true.
+Proof. exact BundleRoundtripIdem.xnorm_writable. Qed.
+Print Assumptions xnorm_writable.
+
+Theorem norm_idempotent_single : forall x509_ok b,
+  writable x509_ok b = true -> single_urls b -> norm (norm b) = norm b.
+Proof. exact BundleRoundtripIdem.norm_idempotent_single. Qed.
+Print Assumptions norm_idempotent_single.
+
+Theorem writable_norm_single : forall x509_ok b,
+  writable x509_ok b = true -> single_urls b -> writable x509_ok (norm b) = true.
+Proof. exact BundleRoundtripIdem.writable_norm_single. Qed.
+Print Assumptions writable_norm_single.
+
+Theorem fixpoint_single : forall x509_ok b bs bs2,
+  writable x509_ok b = true -> single_urls b ->
+  b_write b = Ok bs -> lenN bs < two63 ->
+  b_write (norm b) = Ok bs2 -> lenN bs2 < two63 ->
+  b_read x509_ok bs = Ok (norm b) /\ b_read x509_ok bs2 = Ok (norm b).
+Proof. exact BundleRoundtripIdem.fixpoint_single. Qed.
+Print Assumptions fixpoint_single.
+
+(* every further write/read cycle reproduces (bs2, norm b) *)
+Theorem cycle_fixpoint : forall x509_ok b bs bs2 n,
+  writable x509_ok b = true -> single_urls b ->
+  b_write b = Ok bs -> lenN bs < two63 -> b_write (norm b) = Ok bs2 -> lenN bs2 < two63 ->
+  cycle x509_ok b = Some (bs, norm b) /\
+  Nat.iter n (fun st => match st with Some (_, c) => cycle x509_ok c | None => None end)
+           (cycle x509_ok (norm b))
+  = Some (bs2, norm b).
+Proof. exact BundleRoundtripIdem.cycle_fixpoint. Qed.
+Print Assumptions cycle_fixpoint.
+
+(* PARTIAL.  Full statement (b1 variant sets without multi-key Variant-Key entries):
+     writable b = true -> no_multi_key b -> b_write b = Ok bs -> ... ->
+     norm (norm b) = norm b /\ writable (norm b) = true /\ b_read bs2 = Ok (norm b).
+   Proved here with the first two conjuncts as hypotheses (they are discharged by
+   computation in the examples below; for every-URL-once bundles they are
+   norm_idempotent_single / writable_norm_single).  Missing: that
+   entriesInPossibleKeyOrder of an already row-major single-key group is the
+   identity, and that hv_variants / hv_vkey survive xnorm for the members of such
+   a group. *)
+Theorem fixpoint_partial : forall x509_ok b bs2,
+  writable x509_ok (norm b) = true -> norm (norm b) = norm b ->
+  b_write (norm b) = Ok bs2 -> lenN bs2 < two63 ->
+  b_read x509_ok bs2 = Ok (norm b).
+Proof.
+  intros x509_ok b bs2 W I H L.
+  replace (Ok (norm b)) with (Ok (norm (norm b))) by (rewrite I; reflexivity).
+  apply BundleRoundtripNorm.bundle_roundtrip; assumption.
+Qed.
+Print Assumptions fixpoint_partial.
+
+(* ==== examples ========================================================================== *)
+Definition all_ok (_ : bytes) : bool := true.
+Definition hd1 (k v : string) : bytes * list bytes := (s2b k, [s2b v]).
+Definition ex_vv : string := "Accept-Language;en;fr, Accept-Encoding;gzip;br".
+Definition vx (u vk body : string) : bexchange :=
+  {| bx_url := s2b u; bx_status := 200;
+     bx_hdr := [hd1 "Variants" ex_vv; hd1 "Variant-Key" vk; (s2b "X-Multi", [s2b "a"; s2b "b"])];
+     bx_body := s2b body |}.
+(* b1: 2x2 variant grid supplied in shuffled order, a second URL in between,
+   manifest and signatures *)
+Definition ex_b1 : bundle :=
+  {| b_ver := BV1; b_primary := Some (s2b "https://example.com/");
+     b_manifest := Some (s2b "https://example.com/manifest.json");
+     b_sigs := Some {| sg_auth := [{| ac_cert := [1; 2; 3]; ac_ocsp := Some [4]; ac_sct := None |}];
+                       sg_vouched := [{| vs_authority := 0; vs_sig := [9; 9]; vs_signed := [7] |}] |};
+     b_exchanges := [ vx "https://example.com/" "fr;br" "FRBR";
+                      {| bx_url := s2b "https://example.com/style.css"; bx_status := 404;
+                         bx_hdr := [hd1 "Content-Type" "text/css"]; bx_body := [] |};
+                      vx "https://example.com/" "en;gzip" "ENGZ";
+                      vx "https://example.com/" "fr;gzip" "FRGZ";
+                      vx "https://example.com/" "en;br" "ENBR" ];
+     b_taint := false |}.
+(* b2: three URLs whose insertion order differs from key order *)
+Definition ex_b2 : bundle :=
+  {| b_ver := BV2; b_primary := Some (s2b "https://example.com/zz"); b_manifest := None; b_sigs := None;
+     b_exchanges := [ {| bx_url := s2b "https://example.com/zz"; bx_status := 200;
+                         bx_hdr := [hd1 "Content-Type" "text/html"; hd1 "a" "1"]; bx_body := s2b "<p>" |};
+                      {| bx_url := s2b "https://example.com/a/long/path"; bx_status := 301;
+                         bx_hdr := [hd1 "Location" "/zz"]; bx_body := [] |};
+                      {| bx_url := s2b "b"; bx_status := 999; bx_hdr := []; bx_body := [0; 255] |} ];
+     b_taint := false |}.
+
+Example ex_writable : writable all_ok ex_b1 = true /\ writable all_ok ex_b2 = true /\ single_urls ex_b2.
+Proof.
+  split; [vm_compute; reflexivity|]. split; [vm_compute; reflexivity|].
+  unfold single_urls. vm_compute. repeat constructor; cbn [In]; intuition discriminate.
+Qed.
+
+Definition rt (b : bundle) : bool :=
+  match b_write b with
+  | Ok bs => match b_read all_ok bs with
+             | Ok b' => (lenN bs <? two63) &&
+                        bytes_eqb (List.concat (map bx_body (b_exchanges b')))
+                                  (List.concat (map bx_body (b_exchanges (norm b))))
+                        && (List.length (b_exchanges b') =? List.length (b_exchanges (norm b)))%nat
+             | _ => false end
+  | _ => false
+  end.
+
+(* the shuffled 2x2 grid comes back row-major: en;gzip en;br fr;gzip fr;br, after
+   the URL sorts first; header names canonical, X-Multi comma-joined *)
+Example ex_b1_roundtrip :
+  match b_write ex_b1 with
+  | Ok bs => match b_read all_ok bs with
+             | Ok b' => Some (map (fun x => (bx_url x, bx_body x)) (b_exchanges b'),
+                              map fst (bx_hdr (hd {| bx_url := []; bx_status := 0%Z; bx_hdr := []; bx_body := [] |}
+                                                  (b_exchanges b'))),
+                              b_primary b', b_manifest b', b_sigs b')
+             | _ => None end
+  | _ => None
+  end
+  = Some ([(s2b "https://example.com/", s2b "ENGZ"); (s2b "https://example.com/", s2b "ENBR");
+           (s2b "https://example.com/", s2b "FRGZ"); (s2b "https://example.com/", s2b "FRBR");
+           (s2b "https://example.com/style.css", [])],
+          [s2b "X-Multi"; s2b "Variants"; s2b "Variant-Key"],
+          b_primary ex_b1, b_manifest ex_b1, b_sigs ex_b1).
+Proof. vm_compute. reflexivity. Qed.
+
+Example ex_b2_roundtrip :
+  match b_write ex_b2 with
+  | Ok bs => match b_read all_ok bs with
+             | Ok b' => map (fun x => (bx_url x, bx_status x, bx_hdr x, bx_body x)) (b_exchanges b')
+             | _ => [] end
+  | _ => []
+  end
+  = [(s2b "b", 999%Z, [], [0; 255]);
+     (s2b "https://example.com/zz", 200%Z, [(s2b "A", [s2b "1"]); (s2b "Content-Type", [s2b "text/html"])], s2b "<p>");
+     (s2b "https://example.com/a/long/path", 301%Z, [(s2b "Location", [s2b "/zz"])], [])].
+Proof. vm_compute. reflexivity. Qed.
+
+(* the theorem's instance, checked by computation as well *)
+Example ex_read_is_norm :
+  (match b_write ex_b1 with Ok bs => b_read all_ok bs | _ => Err end) = Ok (norm ex_b1) /\
+  (match b_write ex_b2 with Ok bs => b_read all_ok bs | _ => Err end) = Ok (norm ex_b2).
+Proof. split; vm_compute; reflexivity. Qed.
+
+(* the cycle: the first write differs from the second (order of exchanges), from
+   the second on the bytes are identical - also for the b1 variant set *)
+Definition write_of (b : bundle) : bytes := match b_write b with Ok bs => bs | _ => [] end.
+Definition read_of (bs : bytes) : bundle := match b_read all_ok bs with Ok b => b | _ => ex_b2 end.
+Example ex_cycle :
+  let w1 := write_of ex_b1 in let r1 := read_of w1 in
+  let w2 := write_of r1 in let r2 := read_of w2 in
+  let w3 := write_of r2 in let r3 := read_of w3 in
+  (bytes_eqb w1 w2, bytes_eqb w2 w3, lenN w2 =? 0) = (false, true, false) /\
+  r1 = norm ex_b1 /\ r2 = r1 /\ r3 = r1 /\
+  writable all_ok (norm ex_b1) = true /\ norm (norm ex_b1) = norm ex_b1.
+Proof. vm_compute. repeat split. Qed.
+Example ex_cycle_b2 :
+  let w1 := write_of ex_b2 in let r1 := read_of w1 in
+  let w2 := write_of r1 in let w3 := write_of (read_of w2) in
+  (bytes_eqb w1 w2, bytes_eqb w2 w3) = (false, true).
+Proof. vm_compute. reflexivity. Qed.
+
+(* a multi-key Variant-Key entry is flattened by the reader into repeated exchanges;
+   writing that again is refused (overlap) - the reason the fixpoint excludes them *)
+Definition ex_multi : bundle :=
+  {| b_ver := BV1; b_primary := Some (s2b "https://example.com/"); b_manifest := None; b_sigs := None;
+     b_exchanges := [ vx "https://example.com/" "en;gzip, fr;gzip" "GZ";
+                      vx "https://example.com/" "en;br" "ENBR"; vx "https://example.com/" "fr;br" "FRBR" ];
+     b_taint := false |}.
+Example ex_multi_key :
+  writable all_ok ex_multi = true /\
+  map bx_body (b_exchanges (read_of (write_of ex_multi))) = [s2b "GZ"; s2b "ENBR"; s2b "GZ"; s2b "FRBR"] /\
+  b_write (read_of (write_of ex_multi)) = Err.
+Proof. vm_compute. repeat split. Qed.
+
+(* the side conditions of writable are needed: a status outside 100..999 is written
+   but not read back; two names equal after folding are refused by the writer *)
+Example ex_status_needed :
+  let b := {| b_ver := BV2; b_primary := None; b_manifest := None; b_sigs := None;
+              b_exchanges := [{| bx_url := s2b "https://e.com/"; bx_status := 1000; bx_hdr := []; bx_body := [] |}];
+              b_taint := false |} in
+  b_read all_ok (write_of b) = Err /\ writable all_ok b = false.
+Proof. vm_compute. split; reflexivity. Qed.
+
+(* refusals *)
+Example ex_refused :
+  b_write {| b_ver := BV1; b_primary := Some (s2b "https://example.com/"); b_manifest := None; b_sigs := None;
+             b_exchanges := [vx "u" "en;br" "1"; vx "u" "fr;br" "2"; vx "u" "en;gzip" "3"];
+             b_taint := false |} = Err /\
+  b_write {| b_ver := BV1; b_primary := Some (s2b "https://example.com/"); b_manifest := None; b_sigs := None;
+             b_exchanges := [vx "u" "en;br" "1"; vx "u" "fr;br" "2"; vx "u" "en;gzip" "3"; vx "u" "fr;gzip" "4";
+                             vx "u" "en;br" "5"];
+             b_taint := false |} = Err.
+Proof. vm_compute. split; reflexivity. Qed.
